@@ -121,7 +121,7 @@ func classify(v *report.Violation) {
 	// K3: MemoryAllocationStore keeps the old by-IP entry when a (pool, subscriber) is saved again
 	// with another address (C20 defect, fix C20-F3); the restored store rebuilds by-IP and so differs in GetByIP only.
 	case strings.HasPrefix(v.Part, "r5-memstore[") && strings.HasSuffix(v.Kind, "/GetByIP-only+resaved-with-new-address"):
-		v.Class = "C12-K3-memstore-stale-by-ip"
+		v.Class = "regression:C20-F3 SaveAllocation keeps the old by-IP entry" // fixed in /repo; no longer a known finding: reported as VIOLATION
 	// labels (NOT known findings)
 	case strings.HasPrefix(v.Part, "r5-ipalloc[") && strings.HasSuffix(v.Kind, "/Stats-only+reapplied-SetAllocation"):
 		v.Class = "fix:C05-F1 SetAllocation re-applied counts twice"
